@@ -3,6 +3,7 @@ from __future__ import annotations
 
 import collections
 import json
+import os
 
 import corr_hook as CH
 import hookrun as H
@@ -70,11 +71,22 @@ def search(ctx):
         cmds = ["ls", "rm x", "denied", "askme", "git status", "git push", "ls > /tmp/zz", "'unterminated", "", "projdeny", "projok", "echo $(rm x)", "ls | cat; pwd"]
         n = ctx.scale(60, 1500) * (3 if ctx.broken else 1)
         jobs, metas = [], []
+        # another project with rules of its own: nothing a host puts into the environment or into fields the hook has no use
+        # for may make one host's verdict come from there
+        other = os.path.join(w.s.root, "otherproj")
+        os.makedirs(other, exist_ok=True)
+        with open(os.path.join(other, ".dippy"), "w") as f:
+            f.write('deny ls "listing is off in the other project"\nallow rm x\ndeny projok\n')
+        host_env_names = ["CLAUDE_PROJECT_DIR", "GEMINI_PROJECT_DIR", "CURSOR_PROJECT_DIR", "CURSOR_WORKSPACE", "GEMINI_CWD", "CLAUDE_WORKING_DIR", "PROJECT_DIR", "PWD", "OLDPWD", "INIT_CWD"]
         for _ in range(n):
             cmd = r.pick(cmds)
-            cwd = r.pick([w.proj, w.proj + "/sub", w.s.home])
+            cwd = r.pick([w.proj, w.proj + "/sub", w.s.home, None])  # None: the payload carries no cwd (the process cwd counts)
             pm = r.pick([None, None, None, "default", "bypassPermissions"])
             envx = {"DIPPY_CONFIG": "/proc/self/mem"} if r.chance(0.08) else {}
+            if r.chance(0.35):
+                for name in r.sample(host_env_names, r.randint(1, 2)):
+                    envx[name] = other
+                stats["host_env_groups"] += 1
             gem_tool = r.pick(["shell", "run_shell", "run_shell_command", "execute_shell"])
             shapes = {
                 "claude": {"tool_name": "Bash", "tool_input": {"command": cmd}, "cwd": cwd},
@@ -85,8 +97,12 @@ def search(ctx):
                 # the payloads the hosts really send (docs/hook-systems): every common field present
                 shapes["claude"].update({"session_id": "abc123", "transcript_path": w.s.home + "/t.jsonl", "hook_event_name": "PreToolUse", "tool_use_id": "toolu_01"})
                 shapes["gemini"].update({"session_id": "abc123", "transcript_path": w.s.home + "/t.jsonl", "hook_event_name": "BeforeTool", "timestamp": "2025-12-01T10:30:00Z"})
-                shapes["cursor"].update({"conversation_id": "c-1", "generation_id": "g-1", "model": "claude-4-sonnet", "hook_event_name": "beforeShellExecution", "cursor_version": "2.1.46", "workspace_roots": [cwd], "user_email": "u@example.com"})
+                shapes["cursor"].update({"conversation_id": "c-1", "generation_id": "g-1", "model": "claude-4-sonnet", "hook_event_name": "beforeShellExecution", "cursor_version": "2.1.46", "workspace_roots": [r.pick([cwd or w.proj, other])], "user_email": "u@example.com"})
                 stats["full_payload_groups"] += 1
+            if cwd is None:
+                for v in shapes.values():
+                    del v["cwd"]
+                stats["no_cwd_groups"] += 1
             for host, v in shapes.items():
                 if pm:
                     v["permission_mode"] = pm
@@ -116,7 +132,7 @@ def search(ctx):
             got = CH.parse_stdout(out)
             j = got[0]["json"] if len(got) == 1 and "json" in got[0] else None
             kind = envelope_kind(j)
-            base = {"input": {"command": cmd, "cwd": cwd.replace(w.s.root, "<root>"), "permission_mode": pm, "host_shape": host, "full_payload": full, "argv": args, "env": envx}, "observed": {"exit": rc, "stdout": out[:400].decode("utf-8", "replace")}}
+            base = {"input": {"command": cmd, "cwd": None if cwd is None else cwd.replace(w.s.root, "<root>"), "permission_mode": pm, "host_shape": host, "full_payload": full, "argv": args, "env": envx}, "observed": {"exit": rc, "stdout": out[:400].decode("utf-8", "replace")}}
             if rc != 0 or kind == "malformed" or j is None:
                 vios.append(dict(base, required="exit 0 and a conforming envelope (or {})", oracle="envelope-schema"))
                 continue
@@ -139,7 +155,7 @@ def search(ctx):
             decs = {(d[0], d[1]) for _, _, d, _ in items}
             stats["groups"] += 1
             if len(decs) > 1:
-                vios.append({"input": {"command": key[0], "cwd": key[1].replace(w.s.root, "<root>"), "permission_mode": key[2], "env": json.loads(key[3])}, "observed": {"per_host": [[h, a, list(d)] for h, a, d, _ in items]}, "required": "verdict and reason identical for the three hosts", "oracle": "verdict-mode-free"})
+                vios.append({"input": {"command": key[0], "cwd": None if key[1] is None else key[1].replace(w.s.root, "<root>"), "process_cwd": "<root>/proj", "permission_mode": key[2], "env": json.loads(key[3])}, "observed": {"per_host": [[h, a, list(d)] for h, a, d, _ in items]}, "required": "verdict and reason identical for the three hosts", "oracle": "verdict-mode-free"})
             elif len(samples) < 3:
                 samples.append({"command": key[0], "verdict_all_hosts": list(decs)[0][0], "reason": list(decs)[0][1]})
     finally:
